@@ -26,6 +26,8 @@ LIST_OPS = {
     "extend[c1,c2]": (lambda p, C: p.member_of.extend([C[1], C[2]]), lambda m, C: m + [C[1], C[2]]),
     "insert(0,c3)": (lambda p, C: p.member_of.insert(0, C[3]), lambda m, C: [C[3]] + m),
     "setitem0=c2": (lambda p, C: p.member_of.__setitem__(0, C[2]) if p.member_of else None, lambda m, C: ([C[2]] + m[1:]) if m else m),
+    "extend(gen c1,c3)": (lambda p, C: p.member_of.extend(x for x in [C[1], C[3]]), lambda m, C: m + [C[1], C[3]]),
+    "setitem0=twin": (lambda p, C: p.member_of.__setitem__(0, C[4]) if p.member_of else None, lambda m, C: ([C[4]] + m[1:]) if m else m),
 }
 SET_OPS = {
     "assign{}": (lambda c, P: setattr(c, "members", set()), lambda m, P: set()),
@@ -37,13 +39,14 @@ SET_OPS = {
     "add(p0)": (lambda c, P: c.members.add(P[0]), lambda m, P: m | {P[0]}),
     "update{p1,p2}": (lambda c, P: c.members.update({P[1], P[2]}), lambda m, P: m | {P[1], P[2]}),
     "update[p3,p3]": (lambda c, P: c.members.update([P[3], P[3]]), lambda m, P: m | {P[3]}),
+    "update(gen p1,p2)": (lambda c, P: c.members.update(x for x in [P[1], P[2]]), lambda m, P: m | {P[1], P[2]}),
 }
 
 
 def fresh():
     SymbolGraph().clear()
     SymbolGraph()
-    C = [Company(name=f"c{i}") for i in range(4)]
+    C = [Company(name=f"c{i}") for i in range(4)] + [Company(name="c0")]     # C[4] is a value-equal twin of C[0]
     P = [Person(name=f"p{i}") for i in range(4)]
     return C, P
 
